@@ -23,7 +23,7 @@ PROPS["C01"] = dict(
           "non-trivial = as for map. --vel / --force are also passed (rarely) when the trajectory carries no velocities / forces: the tool must neither crash nor write such columns."
           " frames: sequences of 2-4 frames mapped through ONE TopologyMap (box kind / volume / tilt-only changes between frames, new positions): "
           "every frame must map exactly as it does in a freshly built system and the mapped topology must carry the box of that frame; "
-          "non-trivial = the box changes between frames."),
+          "non-trivial = the box changes between frames. reject: in 30 % of the cases the far parent has weight 0 (the half-box clause does not depend on weights). frames: box changes include barostat-like drifts of 1e-7..2e-6 per frame."),
     assumptions=COMMON_ASSUME + [
         "a parent with weight 0 contributes nothing to the bead force (d_i must be 0 there; with no d vector d=w is read literally)",
         "d/w uses d and w each normalised to sum 1 (VOTCA manual, eq. for the CG force)",
